@@ -382,31 +382,40 @@ func TestC11Ping(t *testing.T) {
 	defer rec.Finish(t)
 	n1 := &NodeSpec{Name: "alice", Domain: "example.org", Instance: "home"}
 	n2 := &NodeSpec{Name: "bob", Domain: "example.org"}
-	n3 := &NodeSpec{Name: "postmaster", Domain: "example.org", Instance: "s1"}
-	var cases []*pingCase
-	i := 0
-	for mask := 0; mask < 8; mask++ {
-		for _, uri := range []string{"/ping", "lime://example.org/ping"} {
-			c := &pingCase{ID: fmt.Sprintf("ping-%d", i), URI: uri}
-			i++
-			if mask&1 != 0 {
-				c.From = n1
-			}
-			if mask&2 != 0 {
-				c.PP = n2
-			}
-			if mask&4 != 0 {
-				c.To = n3
-			}
-			cases = append(cases, c)
+	// destinations relative to the endpoint that answers: none, its complete address, its identity only, its identity with
+	// another instance, somebody else (the reply's origin is the request's destination, whatever it is)
+	self := map[string]*NodeSpec{"server": {Name: "postmaster", Domain: "example.org", Instance: "s1"}, "client": {Name: "cli", Domain: "example.org", Instance: "c1"}}
+	toOf := func(role, kind string) *NodeSpec {
+		me := self[role]
+		switch kind {
+		case "self-full":
+			return me
+		case "self-identity":
+			return &NodeSpec{Name: me.Name, Domain: me.Domain}
+		case "self-other-instance":
+			return &NodeSpec{Name: me.Name, Domain: me.Domain, Instance: "elsewhere"}
+		case "unrelated":
+			return &NodeSpec{Name: "carol", Domain: "other.example", Instance: "x"}
 		}
+		return nil
 	}
 	for _, role := range []string{"server", "client"} {
-		cs := make([]*pingCase, len(cases))
-		for i, c := range cases {
-			cc := *c
-			cc.Role = role
-			cs[i] = &cc
+		var cs []*pingCase
+		i := 0
+		for mask := 0; mask < 4; mask++ {
+			for _, toKind := range []string{"none", "self-full", "self-identity", "self-other-instance", "unrelated"} {
+				for _, uri := range []string{"/ping", "lime://example.org/ping"} {
+					c := &pingCase{ID: fmt.Sprintf("ping-%d", i), URI: uri, Role: role, To: toOf(role, toKind)}
+					i++
+					if mask&1 != 0 {
+						c.From = n1
+					}
+					if mask&2 != 0 {
+						c.PP = n2
+					}
+					cs = append(cs, c)
+				}
+			}
 		}
 		if role == "server" {
 			runPingServer(t, cs, rec)
